@@ -47,6 +47,9 @@ partial def parseTree (j : Json) : R Tree := do
         | "Ad" => pure (.opAd r a (← field j "b" >>= parseTree))
         | _ => throw s!"bad kind {kind}"
   | "slice" => pure (.slice (← fNats j "idx") (← field j "a" >>= parseTree))
+  -- `AdArray.copy()` is the identity of the (immutable) model; `r = a.copy(); r[key] = b`
+  | "copy" => field j "a" >>= parseTree
+  | "setitem" => pure (.setrows (← fNats j "idx") (← field j "a" >>= parseTree) (← field j "b" >>= parseTree))
   | "l2" =>
     let dim ← fNat j "dim"
     let a ← field j "a" >>= parseTree
@@ -76,7 +79,11 @@ def run (j : Json) : R Json := do
   let t ← field j "tree" >>= parseTree
   let n := (vars.map List.length).sum
   match t.evalF (initAd vars) n with
-  | .ok r => pure (obj [("val", ofList bits r.val), ("jac", ofList (ofList bits) r.jac)])
+  | .ok r =>
+    let dom := match t.domF (initAd vars) n with
+      | .ok b => b
+      | .error _ => false
+    pure (obj [("val", ofList bits r.val), ("jac", ofList (ofList bits) r.jac), ("dom", Json.bool dom)])
   | .error e => pure (err e)
 
 def main : IO Unit := runPure run
